@@ -317,6 +317,10 @@ func (e *effectAnalysis) violations() (out []effViolation, nStores int) {
 					}
 					for _, arg := range args {
 						if g := e.of(arg); g != "" && hasRefs(arg.Type(), map[types.Type]bool{}) {
+							// the process's standard streams are meant to be shared: *os.File serialises writes
+							if (g == "os.Stderr" || g == "os.Stdout") && callee != nil && strings.HasPrefix(name, "(*os.File).Write") {
+								continue
+							}
 							add(x, "memory reachable from a package-level variable is handed to "+name+", which may write to it", g)
 						}
 					}
